@@ -187,11 +187,17 @@ def run(prog, tier, extra=None):
     # R4: the in-block double-spend scan examines every spent key individually: each insertion into the per-block
     # "spent in this block" map is either behind the not-contained edge of contains_key(<same key>) or has its
     # previous-value result examined; bulk insertion (extend) cannot see a key repeated inside one transaction
-    sweep = prog.body(CORE + "consensus::block::Block::validate::{closure#0}::{closure#0}")
-    if sweep is None:
-        raise LookupError("transaction sweep closure of Block::validate not found")
-    sweep_bodies = [b for b in prog.all_bodies() if b.path == sweep.path or b.path.startswith(sweep.path + "::{closure")]
+    BV = CORE + "consensus::block::Block::validate::{closure#0}"
+    if prog.body(BV) is None:
+        raise LookupError("Block::validate not found")
+
+    def keyed_by_utxo_key(b, t):
+        """the call is a method of a map / set whose key type is the 59-byte UTXO key (the per-block 'spent here' table)"""
+        return any(b.tyix(c)["s"] == "[u8; 59]" or "<[u8; 59]" in b.tyix(c)["s"] for c in t.get("cargs", []))
+    # the sweep is wherever Block::validate (its body or a closure inside it, e.g. the one handed to all()) fills that table
+    sweep_bodies = [b for b in prog.all_bodies() if (b.path == BV or b.path.startswith(BV + "::{closure")) and not b.is_promoted]
     n_ins = 0
+    sweep = None
     for b in sweep_bodies:
         chb = Chaser(b)
         for bb, t in b.calls():
@@ -202,10 +208,9 @@ def run(prog, tier, extra=None):
                 continue
             if last not in ("insert", "extend", "append", "entry"):
                 continue
-            recv = chb.origin(t["args"][0])
-            # only maps captured from Block::validate (upvar of the sweep closure), i.e. state shared across transactions
-            if not any(x[0] == "param" and x[1] == 1 for x in walk(recv)):
+            if not keyed_by_utxo_key(b, t):
                 continue
+            sweep = sweep or b
             res.instance(R4)
             n_ins += 1
             key = "C01.dup-scan|%s|%s|%d" % (b.path, last, n_ins)
@@ -234,7 +239,8 @@ def run(prog, tier, extra=None):
                 else:
                     res.add(Finding(R4, key, "an output is recorded as spent in this block without checking whether the same key was already recorded", b.loc(bb)))
     if n_ins == 0:
-        res.add(Finding(R4, "C01.dup-scan|none", "Block::validate's transaction sweep no longer records the outputs spent in this block: in-block double spends are not detected", sweep.loc(0)))
+        res.add(Finding(R4, "C01.dup-scan|none", "Block::validate's transaction sweep no longer records the outputs spent in this block: in-block double spends are not detected", prog.body(BV).loc(0)))
+        sweep = prog.body(BV)
 
     # R5: the sweep looks at every value-carrying input: within one iteration over tx.from the only ways around the
     # "already spent in this block?" test are the two documented exemptions - a zero amount and a Bound (NFT marker) slip
@@ -246,16 +252,16 @@ def run(prog, tier, extra=None):
             if has_field(e, "transaction::Transaction", "from"):
                 loop_heads.append(bb)
     def asks_the_map(e):
-        # the branch condition is computed from a lookup in the map shared across the block's transactions
+        # the branch condition is computed from a lookup in the per-block table of spent UTXO keys
         for x in walk(e):
             if x[0] == "call" and x[1].rsplit("::", 1)[-1] in ("contains_key", "contains", "insert", "get", "entry") and x[2] and \
-                    any(y[0] == "param" and y[1] == 1 for y in walk(x[2][0])):
+                    isinstance(x[3], int) and sweep.term(x[3])["k"] == "call" and keyed_by_utxo_key(sweep, sweep.term(x[3])):
                 return True
         return False
     tests = gate.bool_switch_edges(sweep, chs, asks_the_map)
     test_blocks = set(tests["sites"])
     for bb, t in sweep.calls():
-        if (call_name(t) or "").rsplit("::", 1)[-1] in ("insert", "entry") and t["args"] and any(x[0] == "param" and x[1] == 1 for x in walk(chs.origin(t["args"][0]))):
+        if (call_name(t) or "").rsplit("::", 1)[-1] in ("insert", "entry") and t["args"] and keyed_by_utxo_key(sweep, t):
             test_blocks.add(bb)
     zero = gate.compare_edges(sweep, chs, lambda a, c: has_field(a, "slip::Slip", "amount") and c[0] == "const" and c[1] == 0)
     bound, _ = gate.enum_compare_edges(prog, sweep, chs, "slip::SlipType", "slip_type", {"Bound"})
